@@ -301,6 +301,9 @@ def load_known():
     return json.load(open(p))
 
 
+LAST_REPORTER = None
+
+
 class Reporter:
     """Collects violations for one property, classifies against KNOWN_FINDINGS.json,
     prints the protocol lines and writes replay files."""
@@ -311,6 +314,8 @@ class Reporter:
         self.violations = []      # (key, replay_path)
         self.known_hits = {}      # key -> what
         self.dir = workdir(os.path.join("replays", pid))
+        global LAST_REPORTER
+        LAST_REPORTER = self
 
     def violation(self, key, payload, what):
         """key: stable identification of the failing input/call site (string)."""
